@@ -430,6 +430,78 @@ fn run_executor_scenario(wtype: usize, body: &[usize], bwrite: usize, end_exec: 
 
 
 // ---------------------------------------------------------------------------------------------
+// several watched keys: whichever ONE of them changes, EXEC must abort
+// ---------------------------------------------------------------------------------------------
+
+/// `n` keys w0..w(n-1) are watched (one WATCH naming all of them, or one WATCH per key); key `changed` (None: none)
+/// is overwritten between WATCH and MULTI; the body is one SET. level = "executor" | "connection".
+fn multi_watch_case(level: &str, n: usize, one_command: bool, changed: Option<usize>, shards: usize) -> Result<(), (String, String)> {
+    let keys: Vec<String> = (0..n).map(|i| format!("w{i}")).collect();
+    let mut script: Vec<String> = keys.iter().map(|k| format!("SET {k} a")).collect();
+    if one_command {
+        script.push(format!("WATCH {}", keys.join(" ")));
+    } else {
+        script.extend(keys.iter().map(|k| format!("WATCH {k}")));
+    }
+    let write = changed.map(|c| format!("SET {} b", keys[c]));
+    let desc = format!(
+        "{level}-level: {n} keys watched ({}), {} between WATCH and MULTI, body [SET k x], EXEC",
+        if one_command { "one WATCH naming all of them" } else { "one WATCH per key" },
+        write.clone().map(|w| format!("`{w}` by the second client")).unwrap_or_else(|| "no write".into())
+    );
+    let judge = |reply: &RespValue, k_after: &str| -> Result<(), (String, String)> {
+        let is_nil = matches!(reply, RespValue::Array(None) | RespValue::BulkString(None));
+        match (changed.is_some(), is_nil) {
+            (true, false) => Err((format!("{level} watch-missed several-watched-keys"), format!("{desc}: EXEC replied {} (k is now {k_after})", resp::show(reply)))),
+            (true, true) if k_after != "$nil" => Err((format!("{level} abort changed-keyspace several-watched-keys"), format!("{desc}: EXEC replied nil but k is {k_after}"))),
+            (false, true) => Err((format!("{level} watch-spurious several-watched-keys"), format!("{desc}: EXEC replied nil"))),
+            _ => Ok(()),
+        }
+    };
+    if level == "executor" {
+        let mut ex = CommandExecutor::new();
+        let mut run = |ex: &mut CommandExecutor, s: &str| -> RespValue {
+            match resp::parse(&resp::line(s)) {
+                Ok(c) => {
+                    ex.set_time(VirtualTime::from_millis(1000));
+                    ex.execute(&c)
+                }
+                Err(e) => RespValue::Error(format!("ERR {e}").into()),
+            }
+        };
+        for c in &script {
+            run(&mut ex, c);
+        }
+        if let Some(w) = &write {
+            run(&mut ex, w);
+        }
+        run(&mut ex, "MULTI");
+        run(&mut ex, "SET k x");
+        let reply = run(&mut ex, "EXEC");
+        let k_after = resp::show(&run(&mut ex, "GET k"));
+        judge(&reply, &k_after)
+    } else {
+        polex::with_runtime(|rt| {
+            rt.block_on(async {
+                let mach = |e: String| ("harness-io".to_string(), e);
+                let mut m = World::new(shards);
+                for c in &script {
+                    m.one(true, &resp::line(c)).await.map_err(mach)?;
+                }
+                if let Some(w) = &write {
+                    m.one(false, &resp::line(w)).await.map_err(mach)?;
+                }
+                m.one(true, &resp::line("MULTI")).await.map_err(mach)?;
+                m.one(true, &resp::line("SET k x")).await.map_err(mach)?;
+                let reply = m.one(true, &resp::line("EXEC")).await.map_err(mach)?;
+                let k_after = resp::show(&m.one(true, &resp::line("GET k")).await.map_err(mach)?);
+                judge(&reply, &k_after)
+            })
+        })
+    }
+}
+
+// ---------------------------------------------------------------------------------------------
 // command-set sweep: MULTI; <one command of the full command set>; EXEC  vs  the command sent directly
 // ---------------------------------------------------------------------------------------------
 
@@ -569,6 +641,20 @@ fn main() {
                 }
             }
         }
+        if r["multi_watch"] == json!(true) {
+            let changed = r["changed"].as_i64().filter(|c| *c >= 0).map(|c| c as usize);
+            match multi_watch_case(r["level"].as_str().unwrap(), r["n"].as_u64().unwrap() as usize, r["one_command"].as_bool().unwrap(), changed, r["shards"].as_u64().unwrap_or(2) as usize) {
+                Ok(()) => {
+                    println!("replay: no violation");
+                    std::process::exit(0);
+                }
+                Err((sig, detail)) => {
+                    println!("{detail}");
+                    println!("VIOLATION property=C05 replay={} ({sig})", path.display());
+                    std::process::exit(1);
+                }
+            }
+        }
         let res = if r["executor_level"] == json!(true) {
             let body: Vec<usize> = r["body"].as_array().unwrap().iter().map(|b| BODY_OPS.iter().position(|x| *x == b.as_str().unwrap()).unwrap()).collect();
             run_executor_scenario(r["wtype"].as_u64().unwrap() as usize, &body, r["bwrite"].as_u64().unwrap() as usize, r["end_exec"].as_bool().unwrap())
@@ -689,6 +775,25 @@ fn main() {
             ),
         }
     });
+    // several watched keys, each of them changed in turn (and none): executor level and connection level
+    let mut mw_items: Vec<(&str, usize, bool, Option<usize>, usize)> = Vec::new();
+    for level in ["executor", "connection"] {
+        for n in [2usize, 3, 4, 8] {
+            for one_command in [true, false] {
+                for changed in std::iter::once(None).chain((0..n).map(Some)) {
+                    for shards in if level == "connection" { vec![1usize, 2] } else { vec![1] } {
+                        mw_items.push((level, n, one_command, changed, shards));
+                    }
+                }
+            }
+        }
+    }
+    par::par_map(&mw_items, |_, (level, n, one_command, changed, shards)| {
+        evals.fetch_add(1, Ordering::Relaxed);
+        if let Err((sig, detail)) = multi_watch_case(level, *n, *one_command, *changed, *shards) {
+            rep.violation(sig, detail, json!({"multi_watch": true, "level": level, "n": n, "one_command": one_command, "changed": changed.map(|c| c as i64).unwrap_or(-1), "shards": shards}));
+        }
+    });
     // command-set sweep
     let insts = sweep_instances();
     let sweep_items: Vec<(usize, usize, usize)> = shard_opts.iter().flat_map(|sh| (0..insts.len()).flat_map(move |i| (0..SWEEP_SEEDS.len()).map(move |s| (*sh, i, s)))).collect();
@@ -721,10 +826,11 @@ fn main() {
         "connection_level_scenarios": scenarios.len(),
         "two_transactions_on_one_connection_scenarios": chained,
         "executor_level_scenarios": ex_items.len(),
+        "several_watched_keys_cases": mw_items.len(),
         "command_set_sweep": {"command_instances": insts.len(), "cases": sweep_items.len(), "key_types": SWEEP_SEEDS.iter().map(|x| x.0).collect::<Vec<_>>(),
             "not_compared": "TIME, INFO, RANDOMKEY, ACL GENPASS, SPOP without count (random or time-dependent); MULTI/EXEC/DISCARD/WATCH/UNWATCH (covered by the scenarios)"},
         "exhaustive": true,
-        "rule": "connection level: (all bodies of <=3 commands over 17 body ops incl. conditional SETs, multi-key commands across shards, run-time failure, unknown command, wrong arity, nested MULTI, WATCH inside MULTI) x {EXEC, DISCARD}; and WATCH scenarios: 10 watched-key types (incl. two-slot hash/list/zset) x 16 writes by a second connection (incl. content-permuting writes) x 4 positions x small bodies (plus re-WATCH / UNWATCH / WATCH k w right before MULTI); and two transactions in a row on one connection (first: bodies <=2 over {SET, INCR, unknown command, wrong arity} x {EXEC, DISCARD} x {no WATCH, WATCH kept, WATCH broken by B}; second: bodies <=1 x the same three WATCH variants); every scenario is executed on the real handler (2 connections, one state, strictly sequential) and on a twin server that runs the queued commands without MULTI; executor level: same oracle on a bare CommandExecutor",
+        "rule": "connection level: (all bodies of <=3 commands over 17 body ops incl. conditional SETs, multi-key commands across shards, run-time failure, unknown command, wrong arity, nested MULTI, WATCH inside MULTI) x {EXEC, DISCARD}; and WATCH scenarios: 10 watched-key types (incl. two-slot hash/list/zset) x 16 writes by a second connection (incl. content-permuting writes) x 4 positions x small bodies (plus re-WATCH / UNWATCH / WATCH k w right before MULTI); and two transactions in a row on one connection (first: bodies <=2 over {SET, INCR, unknown command, wrong arity} x {EXEC, DISCARD} x {no WATCH, WATCH kept, WATCH broken by B}; second: bodies <=1 x the same three WATCH variants); several watched keys (2, 3, 4, 8; one WATCH naming all or one WATCH per key) with each of them changed in turn and with none changed, at the executor and at the connection level; every scenario is executed on the real handler (2 connections, one state, strictly sequential) and on a twin server that runs the queued commands without MULTI; executor level: same oracle on a bare CommandExecutor",
     });
     rep.finish(
         coverage,
